@@ -73,7 +73,52 @@ def variants(case, X, y):
     return out
 
 
+def run_colsample(case):
+    """colsample < 1: under EVERY outcome of the shuffle a single exact copy / monotone image of the target is returned
+    (each chunk keeps its n_best // 2 >= 1 best features, the copy is the best of its chunk and of the final round)"""
+    import math
+
+    from .. import sched
+    from AutoCarver.selectors import ClassificationSelector
+
+    X, y = c14.build_frame(case)
+    res = {"violations": [], "sample": dict(case), "evaluations": 0}
+    q, l = list(case["qcols"]), list(case["lcols"])
+    cols = q or l
+    perfect = [c for c in cols if c in PERFECT_Q or c in PERFECT_L or c.rstrip("_") in PERFECT_Q]
+    assert len(perfect) == 1
+    ref, _ = c14.measures_for(case, X, y)
+    rivals = [c for c in cols if c != perfect[0] and ref[c][0] is not None and ref[c][0] >= ref[perfect[0]][0] - 1e-9]
+    n_plans = math.factorial(len(cols))
+    lost = []
+    sched.install(("shuffle",))
+    try:
+        for k in range(n_plans):
+            sched.reset([k])
+            sel = ClassificationSelector(case["n_best"], qualitative_features=l or None, quantitative_features=q or None, colsample=case["colsample"], thresh_corr=case["thresh_corr"])
+            got = S.quiet(sel.select, X.copy(), y.copy())
+            if len(sched.TRACE) != 1 or sched.TRACE[0][1] != n_plans:
+                raise RuntimeError(f"unexpected choice points {sched.TRACE}")
+            res["evaluations"] += 1
+            if perfect[0] not in got and not rivals:
+                lost.append((sched.nth_permutation(cols, k), got))
+    finally:
+        sched.reset()
+        sched.uninstall()
+    res["transitions"] = res["evaluations"]
+    if lost:
+        res["violations"].append({"kind": "colsample:perfect-feature-lost", "what": f"colsample={case['colsample']}: {perfect[0]} (copy / monotone image of the target) is not returned for {len(lost)} of {n_plans} shuffle outcomes, e.g. order {lost[0][0]} -> {lost[0][1]}"})
+    res["outcome"] = f"colsample:{case['target']}:{'rival-tie' if rivals else 'strict'}"
+    if not rivals:
+        res["nontrivial"] = repr(sorted((k, str(v)) for k, v in case.items()))
+    else:
+        res["dont_care"] = 1
+    return res
+
+
 def run_case(case):
+    if case.get("colsample", 1.0) < 1:
+        return run_colsample(case)
     X, y = c14.build_frame(case)
     res = {"violations": [], "sample": dict(case), "evaluations": 0}
     viol = res["violations"]
@@ -148,7 +193,23 @@ def run(tier, seed, rep):
     if tier == "quick":
         base = [c for c in base if (c["n_best"], c["thresh_corr"]) in ((1, 1), (2, 0.9), (3, 0.5), (2, 1))]
         base = base[:: 3]
+    # colsample < 1: frames with exactly one perfect column among 3 (4 in thorough) candidates of one type, every shuffle outcome
+    import itertools
+
+    qn = ["copy", "mono", "noisy1", "noisy2", "indep1", "indep2", "halfnan"]
+    ln = ["qcopy", "qnoisy", "qindep", "qindep3", "qnan"]
+    for target in ("binary", "multiclass"):
+        for names, key in ((qn, "qcols"), (ln, "lcols")):
+            for ksz in (3,) if tier == "quick" else (3, 4):
+                for sub in itertools.combinations(names, ksz):
+                    if sum(1 for c in sub if c in PERFECT_Q or c in PERFECT_L) != 1:
+                        continue
+                    for n_best in (2, 3):
+                        c = {"selector": "classification", "target": target, "qcols": [], "lcols": [], "n_best": n_best, "thresh_corr": 1, "colsample": 0.5}
+                        c[key] = list(sub)
+                        base.append(c)
     rep.rule = (
+        "colsample=0.5: every outcome of shuffle for frames with a single copy / monotone image of the target among 3-4 candidates; "
         "E1 metamorphic over the C14 frames (default measures and filters): orbit under negating each quantitative column, scaling it by 2, "
         "0.5, 1024, renaming the categories of each qualitative column by every permutation of its <=3 names and by fresh names, every "
         "column permutation (feature lists permuted alike), row generators (reverse, rotations, transpositions; with and without index "
